@@ -109,7 +109,7 @@ theorem C11_exhaustive_adds_only (v : Variant) (P : Policy) (ex : VerifierN) (re
     (g : Option Sig) (auth : Option Envelope) (ap : Option (List String)) (m : Bool) (r : UVResult)
     (hex : ex.v.exhaustive = true) (hv : v.f1_exhaustiveSatisfies = false) (hne : rest ≠ [])
     (h : usingVerifiers v P (ex :: rest) g auth ap m = .ok r) :
-    ∃ r', usingVerifiers.go g auth ap m ((P.root.apps.filter (·.trusted)).map (·.name)) P.allPrincipals rest = .ok r'
+    ∃ r', usingVerifiers.go v g auth ap m ((P.root.apps.filter (·.trusted)).map (·.name)) P.allPrincipals rest = .ok r'
       ∧ r'.usedName = r.usedName ∧ r'.rslNeeded = r.rslNeeded ∧ ∀ p ∈ r'.accepted, p ∈ r.accepted := by
   unfold usingVerifiers at h
   simp only [List.isEmpty_cons, Bool.false_eq_true, if_false, hex, hv, Bool.not_false, Bool.and_self, if_true] at h
